@@ -32,6 +32,7 @@ inductive Op where
   | unknownStat                 -- stats(['nope']) → ValueError
   | read                        -- a reader helper call on an unrelated dataset
   | readObs (input : Nat)       -- an *observed* reader call (read_dataset / from_ww3 / …) on in-memory dataset no. `input`
+  | foreign (what : String)     -- any other call whose result is discarded: writing the object to a file, a curve fit, …
 deriving Repr, DecidableEq
 
 structure State where
@@ -65,6 +66,7 @@ def stepNew (s : State) : Op → State × Option Obs
   | .unknownStat => (s, none)
   | .read => (s, none)
   | .readObs v => (s, some (.reader v))
+  | .foreign _ => (s, none)
 
 /-- semantics of the code as found -/
 def stepOld (s : State) : Op → State × Option Obs
@@ -89,6 +91,7 @@ def stepOld (s : State) : Op → State × Option Obs
   | .unknownStat => (s, none)
   | .read => (s, none)
   | .readObs v => (s, some (.reader v))
+  | .foreign _ => (s, none)
 
 def run (step : State → Op → State × Option Obs) (s : State) : List Op → State × List (Option Obs)
   | [] => (s, [])
